@@ -339,7 +339,7 @@ func runC15(c *eng.Ctx) {
 			continue
 		}
 		rng := cr.rng(idx)
-		s, m := GenSpec(rng, GenOpts{Want: ClsOK, Specials: k%2 == 0})
+		s, m := GenSpec(rng, GenOpts{Want: ClsOK, Specials: k%2 == 0, Removes: k%4 == 0, MultiAlias: k%4 == 0})
 		if s == nil {
 			continue
 		}
